@@ -168,6 +168,7 @@ def gen_part(rng, pid, plan, has_pickup, profile):
     unequal = rng.choice((0, 0, 0.5)) if profile in ("full", "plain", "midi") else 0
     min_dur = rng.choice((F(1, 8), F(1, 4), F(1, 4), F(1, 2)))
     # --- rhythms per measure per voice, in quarters relative to the measure start
+    voice_opts = {}
     content = []  # per measure: list of (voice, staff, items)
     denoms = []
     for L, _ in plan:
@@ -176,7 +177,12 @@ def gen_part(rng, pid, plan, has_pickup, profile):
         for vn, st in voices:
             if len(voices) > 1 and rng.random() < 0.15:
                 continue  # voice silent in this measure (gap, no rests)
-            items = fill_voice(rng, L, {"tuplets": tup_p, "min_dur": min_dur})
+            if vn not in voice_opts:
+                # rhythmic vocabulary differs between voices (one may have triplets, another small binary values)
+                voice_opts[vn] = {"tuplets": tup_p if rng.random() < 0.6 else rng.choice((0.0, 0.4)), "min_dur": min_dur if rng.random() < 0.6 else rng.choice((F(1, 8), F(1, 4), F(1, 2), F(1)))}
+                if simple:
+                    voice_opts[vn]["tuplets"] = 0.0
+            items = fill_voice(rng, L, voice_opts[vn])
             for off, d, sym, g in items:
                 den = lcm(den, off.denominator)
                 den = lcm(den, d.denominator)
